@@ -15,7 +15,8 @@ try:
         a = sh(f"git -C {wt} apply {VERIF}/seeded/{s}/patch.diff")
         if a.returncode:
             print(f"[{s}] patch does not apply to HEAD: {a.stderr.strip()[:120]}"); continue
-        props = [meta["breaks"]] + [p for p in meta.get("also_checks", [])]
+        import re
+        props = list(dict.fromkeys(re.findall(r"C\d\d", meta["breaks"]) + [p for p in meta.get("also_checks", [])]))
         for p in props:
             env = dict(os.environ, VERIF_REPO=wt, VERIF_NO_EVIDENCE="1")
             c = subprocess.run([os.path.join(VERIF, "check"), p], capture_output=True, text=True, env=env)
